@@ -222,11 +222,17 @@ Definition ignore (t : tree) (b : builder) : builder :=
       mkB (set_def (mkDef name true (Some t) [] (OTerm 0)) (b_defs b)) (b_ignore b ++ [name])%list
   end.
 
-(* _unpack_definition: mangle name, params and every symbol of the body; options are kept
-   (template_source keeps the unmangled name - see C17_template_label_refuted) *)
+(* _unpack_definition: mangle name, params and every symbol of the body; under a mangle the
+   template_source option (tree label of the instances of a template) becomes the mangled name *)
+Definition mangle_opts (ls : list layer) (is_term : bool) (newname : string) (o : dopts) : dopts :=
+  match ls, is_term, o with
+  | _ :: _, false, ORule k e p (Some _) => ORule k e p (Some newname)
+  | _, _, _ => o
+  end.
+
 Definition mangle_def (ls : list layer) (d : defn) : defn :=
   mkDef (mangle ls (d_name d)) (d_term d) (option_map (rename_tree (mangle ls)) (d_tree d))
-        (map (mangle ls) (d_params d)) (d_opts d).
+        (map (mangle ls) (d_params d)) (mangle_opts ls (d_term d) (mangle ls (d_name d)) (d_opts d)).
 
 (* ------------------------------------------------------------------ _remove_unused *)
 Definition rule_deps (l : list defn) (s : string) : list string :=
